@@ -1,5 +1,7 @@
 from cacheprops import CACHE_TB, CACHE_ASSUMPTIONS, ca_component
 
+import facts
+
 ID = "C03"
 PROP = {
     "modules": ["Gnmi.Props.C03"],
@@ -27,3 +29,4 @@ PROP = {
         "technique": "Lean 4 proof of the per-step feed laws + model/implementation correspondence with aliasing generators + model-independent feed-replay monitor",
     },
 }
+PROP.setdefault("pre", []).append(facts.make_step(['cache.update.writeThenNotify', 'cache.update.conditions']))
